@@ -15,6 +15,7 @@ RUNNER_COMPONENTS = {
 
 DEFS = {
     "C07": {
+        "measure": "crash context = (fault action, seam site or file:line, position of the variation {only, first, middle, last}, repetition class {before first success, interior}, state of that variation's partial file before>after the crash {absent, empty, torn, ok, foreign}); for completed calls the C05 measure",
         "module": "worlds.c07", "level": "fault_enumeration",
         "stages": {
             "quick": [{"name": "sampled multi-crash plans", "n": 12000, "wall": 45, "opts": {"mode": "sample", "chunk": 25}},
@@ -38,6 +39,7 @@ DEFS = {
         "components": RUNNER_COMPONENTS,
     },
     "C05": {
+        "measure": 'completed call = (number of unpacked parameters, number of variations, stop-rule kind @ where it fired {rep1, middle, limit}, number of skips (capped), first repetition skipped?, call kind, position in the history, same runner?, resumed from a partial file?, rep_max class)',
         "module": "worlds.c05", "level": "exploration",
         "stages": {
             "quick": [{"name": "fault-free histories", "n": 24000, "wall": 55, "opts": {"chunk": 50}}],
@@ -51,6 +53,7 @@ DEFS = {
         "components": RUNNER_COMPONENTS,
     },
     "C06": {
+        "measure": '(level, result type(s), accumulate flag, arithmetic mode, sizes of the represented observation lists = canonical merge-tree shape, whether an empty destination was merged into)',
         "module": "worlds.c06", "level": "exploration",
         "stages": {
             "quick": [{"name": "accumulator schedules and merge trees", "n": 120000, "wall": 50, "opts": {"chunk": 250}}],
@@ -66,6 +69,7 @@ DEFS = {
                        "fake": ["the scheduler that decides which accumulator receives an observation and the merge tree"], "stub_or_not_run": []},
     },
     "C08": {
+        "measure": '(class, mutator kind, cache mask before the mutation {H, big_H, big_W populated?} read privately for coverage only, path loss set?, kinds of reads since the previous mutation)',
         "module": "worlds.c08", "level": "exploration",
         "stages": {
             "quick": [{"name": "update/read histories", "n": 100000, "wall": 50, "opts": {"chunk": 200}}],
@@ -82,6 +86,7 @@ DEFS = {
                        "fake": ["operation scheduler", "seeds of the channel/noise RandomStates (public set_channel_seed/set_noise_seed)"], "stub_or_not_run": []},
     },
     "C10": {
+        "measure": '(solver, initialisation mode, operation, which derived fields {full_F, full_W_H, full_W} were cached before the operation, previous operation)',
         "module": "worlds.c10", "level": "exploration",
         "stages": {
             "quick": [{"name": "solver histories", "n": 24000, "wall": 55, "opts": {"chunk": 20}}],
@@ -99,6 +104,7 @@ DEFS = {
                        "fake": ["operation scheduler", "RandomState seeds"], "stub_or_not_run": ["GreedStreamIASolver, BruteForceStreamIASolver (not anchored by the property)"]},
     },
     "C14": {
+        "measure": '(operation trigram, decade of the stream position, decade of the request size)',
         "module": "worlds.c14", "level": "exploration",
         "stages": {
             "quick": [{"name": "request/skip histories", "n": 60000, "wall": 50, "opts": {"chunk": 50}}],
@@ -113,6 +119,7 @@ DEFS = {
         "components": {"real": ["pyphysim.channels.fading_generators.JakesSampleGenerator"], "fake": ["request/skip scheduler (the generator's clock is jumped with skip)", "RandomState seed"], "stub_or_not_run": []},
     },
     "C03": {
+        "measure": '(channel kind, fading generator, transmission domain, direction switched?, path loss set?, previous transmission domain, selection kind)',
         "module": "worlds.c03", "level": "exploration",
         "stages": {
             "quick": [{"name": "transmission histories", "n": 60000, "wall": 50, "opts": {"chunk": 50}}],
@@ -130,6 +137,7 @@ DEFS = {
                        "fake": ["operation scheduler", "numpy global RNG and RandomState seeds"], "stub_or_not_run": []},
     },
     "C13": {
+        "measure": '(model, attribute set, rejected?, small-distance policy, previous attribute)',
         "module": "worlds.c13", "level": "exploration",
         "stages": {
             "quick": [{"name": "setter histories", "n": 120000, "wall": 45, "opts": {"chunk": 250}}],
@@ -145,6 +153,7 @@ DEFS = {
                        "fake": ["setter scheduler"], "stub_or_not_run": ["shadowing"]},
     },
     "C15": {
+        "measure": '(class, M, last mutator, Gray violated?)',
         "module": "worlds.c15", "level": "exploration",
         "stages": {
             "quick": [{"name": "construct / setPhaseOffset histories", "n": 12000, "wall": 45, "opts": {"chunk": 20}}],
@@ -176,4 +185,5 @@ def run(pid, tier, seed, replay=None, quiet=False, plans=None, wall=None, worker
         for s in stages:
             s["wall"] = wall
     return core.run_batch(d["module"], pid, tier, seed, stages, workers, level=d["level"], rule=d["rule"],
-                          assumptions=d["assumptions"], components=d["components"])
+                          assumptions=d["assumptions"], components=d["components"],
+                          extra_cov={"abstract_state_measure": d.get("measure", "")})
